@@ -9,7 +9,11 @@ props = ['C%02d' % i for i in range(1, 21)]
 if subprocess.run(['git', 'diff', '--quiet'], cwd='/repo').returncode != 0:
     print('/repo dirty'); sys.exit(2)
 total = alarms = 0
-for d in sorted(glob.glob(base + '/*/patch.diff'), key=lambda p: int(os.path.basename(os.path.dirname(p)))):
+def _key(p):
+    n = os.path.basename(os.path.dirname(p))
+    m = __import__('re').match(r'(.*?)(\d+)$', n)
+    return (m.group(1), int(m.group(2))) if m else (n, 0)
+for d in sorted(glob.glob(base + '/*/patch.diff'), key=_key):
     k = os.path.basename(os.path.dirname(d))
     if subprocess.run(['git', 'apply', '--check', d], cwd='/repo', capture_output=True).returncode != 0:
         print(k, 'does not apply'); continue
